@@ -357,8 +357,9 @@ class Stats:
 
 
 class Ctx:
-    def __init__(self, decisions, stats, timeout_ms, export_every=0, stop_at_first=True, eqs_first=False, sat_search=False, clear_div=False):
+    def __init__(self, decisions, stats, timeout_ms, export_every=0, stop_at_first=True, eqs_first=False, sat_search=False, clear_div=False, lin_relax=False):
         self.eqs_first = eqs_first
+        self.lin_relax = lin_relax
         self.sat_search = sat_search
         self.clear_div = clear_div
         self.decisions = decisions     # list of [kind, value]; kind 'T' = alternative still open
@@ -417,6 +418,13 @@ class Ctx:
                 m = s.model() if r == z3.sat else None
             self.stats.solver_s += time.time() - t0
             return str(r), m
+        if r == z3.unknown and self.lin_relax and fresh:
+            # obligations only: linear relaxation (monomials as atoms); unsat there is a proof, anything else says nothing
+            from . import linrelax
+            if linrelax.unsat_by_relaxation(list(self.pc) + list(extra), min(self.cur_timeout_ms, 20000)):
+                self.stats.lin_relax_unsat = getattr(self.stats, 'lin_relax_unsat', 0) + 1
+                self.stats.solver_s += time.time() - t0
+                return 'unsat', None
         if r == z3.unknown and self.eqs_first:
             # small portfolio: equation solving + the SMT core first (decides "equal up to rearrangement of
             # (non)linear monomials" instantly where the default strategy can spend a minute), then the default solver
@@ -643,7 +651,7 @@ class _StopExploration(BaseException):
 
 
 def explore(fn, timeout_ms=30000, max_paths=20000, export_every=0, stop_at_first=True, wall_budget_s=None,
-            catch_exceptions=True, eqs_first=False, sat_search=False, clear_div=False):
+            catch_exceptions=True, eqs_first=False, sat_search=False, clear_div=False, lin_relax=False):
     """Run `fn(ctx)` once per feasible path.  `fn` creates its symbolic inputs (plain z3 consts
     wrapped in Sym), calls ctx.assume(...) for preconditions, runs the code under test and states
     obligations with ctx.check(...).  Returns Stats."""
@@ -654,7 +662,7 @@ def explore(fn, timeout_ms=30000, max_paths=20000, export_every=0, stop_at_first
     prev = _CTX
     try:
         while True:
-            c = Ctx(decisions, stats, timeout_ms, export_every, stop_at_first, eqs_first, sat_search, clear_div)
+            c = Ctx(decisions, stats, timeout_ms, export_every, stop_at_first, eqs_first, sat_search, clear_div, lin_relax)
             _CTX = c
             try:
                 fn(c)
